@@ -269,6 +269,11 @@ Proof.
     destruct (open_ro None w1 A I) as (A2 & B2 & _). split; [exact A2 | congruence].
   - auto.
   - apply fetch_active_R_ro; assumption.
+  - unfold op_gated in G. simpl in G.
+    assert (X : fst (match io_calls w cs with (w', None) => (w', Some EFail) | r => r end) = fst (io_calls w cs))
+      by (destruct (io_calls w cs) as [w' [e|]]; reflexivity).
+    rewrite X. apply (ro_core w); [exact RO | apply io_calls_ro; assumption].
+  - destruct RO as [H D]. split; [split; assumption | reflexivity].
 Qed.
 
 Lemma run_cons o r w :
@@ -315,10 +320,12 @@ Proof.
   - apply negb_false_iff, mode_eqb_eq in NR. subst req. unfold fetch_active. rewrite H. simpl.
     apply io_calls_R_refused; assumption.
   - unfold fetch_active. rewrite H. simpl. apply io_calls_R_refused; assumption.
+  - pose proof (io_calls_R_refused cs w H G Wr T) as X. destruct (io_calls w cs) as [w' e]. simpl in X. subst e. reflexivity.
   - rewrite (io_calls_closed cs w H). destruct cs; [discriminate | reflexivity].
   - rewrite (io_calls_closed _ w H). destruct dead; [discriminate | reflexivity].
   - apply negb_false_iff, mode_eqb_eq in NR. subst req. apply fetch_active_R_closed_refused; assumption.
   - apply fetch_active_R_closed_refused; assumption.
+  - rewrite (io_calls_closed cs w H). destruct cs; [discriminate | reflexivity].
 Qed.
 
 Theorem readonly_no_write_proof : forall ops w,
@@ -396,6 +403,8 @@ Proof.
       destruct (close_inv w3) as (E3 & _). destruct (close w3) as [w4 [e4|]]; simpl in *;
         eapply same_env_trans; eauto; eapply same_env_trans; eauto.
     + simpl. apply io_calls_inv.
+  - destruct (io_calls_inv cs w) as (_ & E & _). destruct (io_calls w cs) as [w' [e|]]; exact E.
+  - repeat split.
 Qed.
 
 Lemma step_extends w o : extends w (fst (step w o)).
@@ -426,6 +435,8 @@ Proof.
       destruct (close_inv w3) as (_ & X3). destruct (close w3) as [w4 [e4|]]; simpl in *;
         (eapply extends_trans; [|exact X3]); (eapply extends_trans; [|exact X2]); exists []; rewrite app_nil_r; exact F.
     + simpl. apply io_calls_inv.
+  - destruct (io_calls_inv cs w) as (_ & _ & X). destruct (io_calls w cs) as [w' [e|]]; exact X.
+  - apply extends_set_repack.
 Qed.
 
 Lemma run_block_inv ops : forall w, same_env w (fst (run_block ops w)) /\ extends w (fst (run_block ops w)).
